@@ -346,6 +346,20 @@ func DeleteSegmentData(segmentsToDelete map[string]*structs.SegMeta) {
 		segBaseDirs[baseDir] = struct{}{}
 	}
 
+	// The entries come from segmeta.json, which does not carry the pqids of a segment: read them
+	// from the sfm file before the segment files are removed, they are needed in step 4
+	for _, segMetaEntry := range segmentsToDelete {
+		if segMetaEntry.AllPQIDs != nil {
+			continue
+		}
+		sfmData, err := writer.ReadSfm(segMetaEntry.SegmentKey)
+		if err != nil {
+			log.Errorf("DeleteSegmentData: Failed to read sfm file of segkey=%v; err=%v", segMetaEntry.SegmentKey, err)
+			continue
+		}
+		segMetaEntry.AllPQIDs = sfmData.AllPQIDs
+	}
+
 	// 1) First iterate through blob
 	for _, segMetaEntry := range segmentsToDelete {
 
